@@ -1,6 +1,9 @@
 (* L2Check.v -- the end-to-end correspondence: the model (Gen + TmplExec on the
    regenerated template) against what the real moq produced on the same input. *)
-From Moq Require Import Strs GoTypes Registry Scope Gen TmplAst TmplExec WellScoped.
+From Moq Require Import Strs GoTypes VarName Registry Scope Gen TmplAst TmplExec WellScoped.
+
+(* the template prints type-parameter names through Exported in the declaration *)
+Definition exported_tp (s : string) : string := exported s.
 From Moq.gen Require Import TemplateSrc.
 
 Inductive observed :=
@@ -15,7 +18,36 @@ Record l2case := mkCase {
   lc_input : input;
   lc_cfg : config;
   lc_args : list string;
-  lc_obs : observed }.
+  lc_obs : observed;
+  lc_proj : string }.      (* the structure of the real output, as extracted by `vh facts` *)
+
+(* ---- the structural projection of the model's output ----
+   Everything the generator decides (package clause, import block, mock names, type
+   parameters, method names, parameter names and types), independent of how the template
+   lays it out; type expressions are compared without white space and semicolons. *)
+Fixpoint squeeze (s : string) : string :=
+  match s with
+  | EmptyString => EmptyString
+  | String c r =>
+    if Ascii.eqb c " "%char || Ascii.eqb c ";"%char || Ascii.eqb c (ascii_of_nat 10)
+       || Ascii.eqb c (ascii_of_nat 9)
+    then squeeze r else String c (squeeze r)
+  end.
+Definition nl : string := String (ascii_of_nat 10) "".
+Definition proj_param (p : param_d) : string :=
+  "p " ++ pd_name p ++ " " ++
+  squeeze (if pd_variadic p then "..." ++ drop_str 2 (pd_type p) else pd_type p) ++ nl.
+Definition proj_method (m : method_d) : string :=
+  "m " ++ md_name m ++ nl ++ concat_all (map proj_param (md_params m)) ++
+  concat_all (map (fun r => "r " ++ squeeze (pd_type r) ++ nl) (md_returns m)).
+Definition proj_mock (k : mock_d) : string :=
+  "mock " ++ mk_name k ++ nl ++
+  concat_all (map (fun t => "tp " ++ exported_tp (td_name t) ++ " " ++ squeeze (td_type t) ++ nl) (mk_tparams k)) ++
+  concat_all (map proj_method (mk_methods k)).
+Definition proj_data (d : data) : string :=
+  "pkg " ++ d_pkg_name d ++ nl ++
+  concat_all (map (fun i => "imp " ++ i_alias i ++ " " ++ i_path i ++ nl) (d_imports d)) ++
+  concat_all (map proj_mock (d_mocks d)).
 
 Definition model_output (c : l2case) : outcome string :=
   bind (mock_run (lc_input c) (lc_cfg c) (lc_args c)) (fun d =>
@@ -26,7 +58,17 @@ Definition model_output (c : l2case) : outcome string :=
 
 Definition verdict (c : l2case) : string :=
   match model_output c, lc_obs c with
-  | Ok r, ObsOut s => if String.eqb r s then "ok" else "DIFF-bytes"
+  | Ok r, ObsOut s =>
+    if String.eqb r s then "ok"
+    else match mock_run (lc_input c) (lc_cfg c) (lc_args c) with
+         | Ok d => if String.eqb (proj_data d) (lc_proj c) then "ok-proj" else "DIFF-structure"
+         | _ => "DIFF-bytes"
+         end
+  | Err "template: stuck", ObsOut s =>
+    match mock_run (lc_input c) (lc_cfg c) (lc_args c) with
+    | Ok d => if String.eqb (proj_data d) (lc_proj c) then "ok-proj" else "DIFF-structure"
+    | _ => "DIFF-bytes"
+    end
   | Err m, ObsErr s => if String.eqb m s then "ok-err" else "DIFF-errmsg"
   | OutOfFuel _, ObsCrash => "ok-diverges"
   | OutOfFuel _, ObsTimeout => "ok-diverges"
